@@ -109,11 +109,15 @@ Definition bseq (r : bres) (k : nat -> dstate -> bres) : bres :=
   | BOk f d t => bout t (k f d)
   end.
 
+(* has the counter value c passed the end vb in the direction of the step vs?  (a zero step counts as not
+   negative, here and at the entry of the loop alike) *)
+Definition passed_end (vs vb c : Z) : bool := if vs >=? 0 then c >? vb else vb >? c.
+
 (* NEXT: add the step; has the counter passed the end in the direction of the step? *)
 Definition for_next (v : var) (vb vs nline : Z) (d1 : dstate) (k_end k_loop : dstate -> bres) : bres :=
   let c := getv (env d1) v + vs in
   if negb (in16 c) then BStop [] (Stopped flow_E_OVERFLOW nline)
-  else if (if flow_next_dir (Z.sgn vs) then c >? vb else vb >? c)
+  else if passed_end vs vb c
        then k_end (d_setv d1 v c) else k_loop (d_setv d1 v c).
 
 (* one pass of the body, NEXT, and again until the counter has passed the end
@@ -169,7 +173,7 @@ Fixpoint exec (gas fuel : nat) (cur : Z) (b : list sstmt) (d : dstate) {struct g
             let next := for_next v vb vs (line_after body cur) in
             let loop := for_loop (fun f1 d1 => exec g f1 cur body d1) next continue g in
             let d0 := d_setv d v va in
-            if (if flow_for_dir (Z.sgn vs) then va >? vb else vb >? va)
+            if passed_end vs vb va
             then (* start already past the end: the body is skipped *)
               next d0 (continue f) (loop f)
             else loop f d0)))
